@@ -93,6 +93,33 @@ fn main() {
             }
         }
     }
+    // C06: a reported parameter that gets no argument is refused with the error naming it - for every subset of the reported
+    // parameters left out (the empty argument map included), with and without an unrelated extra argument
+    let all: [(&str, ArgValue); 3] = [("quantity", ArgValue::Int(quantity)), ("sender", ArgValue::Address(addr_bytes(SENDER))), ("receiver", ArgValue::Address(addr_bytes(RECEIVER)))];
+    for mask in 1u8..8 {
+        for extra_arg in [false, true] {
+            cases += 1;
+            let mut args: BTreeMap<String, ArgValue> = BTreeMap::new();
+            let mut missing: Vec<&str> = vec![];
+            for (i, (k, v)) in all.iter().enumerate() {
+                if mask & (1 << i) != 0 { missing.push(k); } else { args.insert(k.to_string(), v.clone()); }
+            }
+            if extra_arg { args.insert("unrelated".to_string(), ArgValue::Int(1)); }
+            let tx = lower(TRANSFER, "transfer");
+            let store = FixedStore(vec![lovelace_utxo(SENDER, 50_000_000_000, 0)]);
+            let mut c = compiler(44, 155381, None);
+            vf_pipeline::begin_case(format!("transfer without the arguments {missing:?}"));
+            let r = pollster::block_on(tx3_resolver::resolve_tx(AnyTir::V1Beta0(tx), &args, &mut c, &store, 10));
+            let observed = match &r {
+                Err(Error::MissingTxArg { key, .. }) if missing.contains(&key.as_str()) => None,
+                Err(e) => Some(format!("Err({e})")),
+                Ok(x) => Some(format!("Ok(fee {})", x.fee)),
+            };
+            if let Some(o) = observed {
+                println!("VERIF-WITNESS obligation=c05_resolver/resolve_tx#missing-argument fn=resolve_tx input=transfer(quantity, sender, receiver) resolved with the arguments {:?} class=reported-parameter-without-argument observed={} required=Err(MissingTxArg) naming one of {missing:?}", args.keys().collect::<Vec<_>>(), o.chars().take(160).collect::<String>());
+            }
+        }
+    }
     println!("VERIF-CASES fn=resolve_tx n={cases}");
     println!("VERIF-WITNESSES {witnesses}");
 }
